@@ -89,6 +89,45 @@ def main(args):
         print("  event %d removed: %s" % (midx + 1, "rejected at %s" % rej if rej is not None else "ACCEPTED"))
         ok &= rej is not None
 
+        print("2b. recorded XML sessions: accepted / rejected when a logged result or a setter call is altered")
+        info, summ, rej = check.record_trace_validate(scratch, harness, "xml", "Trace_Xml.tla", "Trace_Xml.cfg", 7, 1200, 300)
+        print("  original trace: %s" % ("accepted" if rej is None else "REJECTED at %s" % rej))
+        ok &= rej is None
+        trace = info["trace_file"]
+        lines = open(trace).read().splitlines()
+        evs = [json.loads(l) for l in lines]
+        # (a) one decoded value altered
+        idx = next(i for i, e in enumerate(evs) if e["op"] == "dec" and e["err"] == "ok" and len(e["d"]["ch"]) > 1)
+        ev = json.loads(lines[idx])
+        rootk = next(iter(ev["r"]["kv"]))
+        ev["r"]["kv"][rootk + "x"] = ev["r"]["kv"].pop(rootk)
+        open(trace, "w").write("\n".join(lines[:idx] + [json.dumps(ev)] + lines[idx + 1:]) + "\n")
+        _, rej = check.validate_trace_only(scratch, "Trace_Xml.tla", "Trace_Xml.cfg", 300)
+        print("  root key of the result of event %d altered: %s" % (idx + 1, "rejected at %s" % rej if rej is not None else "ACCEPTED"))
+        ok &= rej == idx + 1
+        # (b) a setter call that changes the next decode removed from the log: the specification's registers then differ
+        sidx = None
+        for i, e in enumerate(evs):
+            if e["op"] == "set" and e["fn"] == "SetAttrPrefix" and e["arg"] in ("@", ""):
+                j = i + 1
+                while j < len(evs) and evs[j]["op"] not in ("reset",):
+                    if evs[j]["op"] == "set" and evs[j]["fn"] in ("SetAttrPrefix", "PrependAttrWithHyphen"):
+                        break
+                    if evs[j]["op"] == "dec" and '"at":[{' in lines[j]:
+                        sidx = i
+                        break
+                    j += 1
+            if sidx is not None:
+                break
+        if sidx is None:
+            print("  (no suitable setter event in this trace)")
+            ok = False
+        else:
+            open(trace, "w").write("\n".join(lines[:sidx] + lines[sidx + 1:]) + "\n")
+            _, rej = check.validate_trace_only(scratch, "Trace_Xml.tla", "Trace_Xml.cfg", 300)
+            print("  setter event %d removed: %s" % (sidx + 1, "rejected at %s" % rej if rej is not None else "ACCEPTED"))
+            ok &= rej is not None
+
         print("3. replay reports an altered expectation")
         meta = tempfile.mkdtemp(prefix="meta_", dir=scratch)
         r = subprocess.run(["timeout", "300"] + check.tlc_cmd("MC_C07.tla", "MC_C07_quick.cfg", meta, 8), cwd=sd, stdout=subprocess.PIPE, stderr=subprocess.STDOUT, text=True)
